@@ -1,4 +1,5 @@
 """helpers shared by the per-file contract modules"""
+import re
 
 CUR = '(&[u8], usize)'
 
@@ -31,13 +32,29 @@ def leaf_post(name, ty, w, value, params='', cur='data', extra=''):
 ''' % dict(name=name, ty=ty, w=w, value=value, params=params, cur=cur, extra=extra)
 
 
-def bits_closure_head(struct, post_clauses, lifetime=None, requires=('data.1 == 0', 'small(data.0@.len() as int)')):
-    """typed header for the closure handed to `bits(..)`; one ensures clause per line so that a failed clause is
-    identified by its line in the verifier's report"""
+BITS_RE = r"bits\(move \|(\w+)(?:: \(&'a \[u8\], usize\))?\| -> IResult<_, _> \{"
+SIGNED_RE = r"\|(\w+)\| signed_i32\(\1, (\d+)\)"
+
+
+def bits_closure_template(struct, post_clauses, lifetime=None, requires=('data.1 == 0', 'small(data.0@.len() as int)')):
+    """typed header for the closure handed to `bits(..)` (regex template: \\1 is the closure's parameter name, whatever it is
+    called); one ensures clause per line so that a failed clause is identified by its line in the verifier's report"""
     lt = "&'a [u8]" if lifetime else '&[u8]'
-    req = ''.join('\n            %s,' % x for x in requires)
-    ens = ''.join('\n            %s,' % x for x in post_clauses)
-    return 'bits(move |data: (%s, usize)| -> (r: IResult<(%s, usize), %s>)\n        requires%s\n        ensures%s\n    {\n        proof { at_self(data); }' % (lt, lt, struct, req, ens)
+    rn = lambda x: re.sub(r'\bdata\b', r'\\1', x)
+    req = ''.join('\n            %s,' % rn(x) for x in requires)
+    ens = ''.join('\n            %s,' % rn(x) for x in post_clauses)
+    return 'bits(move |\\1: (%s, usize)| -> (r: IResult<(%s, usize), %s>)\n        requires%s\n        ensures%s\n    {\n        proof { at_self(\\1); }' % (lt, lt, struct, req, ens)
+
+
+def apply_bits_closure(fc, fn, struct, post_clauses, lifetime=None):
+    fc.replace_in_re(fn, BITS_RE, bits_closure_template(struct, post_clauses, lifetime))
+
+
+def apply_signed_closures(fc, fn, widths):
+    if widths:
+        got = fc.replace_in_re(fn, SIGNED_RE, r'|\1: (&[u8], usize)| -> (r: IResult<(&[u8], usize), i32>) requires cur_ok(\1), ensures signed_post(\1, \2, r), { signed_i32(\1, \2) }', occ='all')
+        found = sorted(int(g[1]) for g in got)
+        # the widths themselves are not part of the anchor: a changed width is for the layout postcondition to refute
 
 
 def signed_closure(w):
